@@ -271,4 +271,21 @@ PROPS = {
             'in the model API functions are mathematical functions; the theorem is that the Quantizer state influences the pipeline only through the flattened rule list, for all histories',
             'determinism across processes / hash seeds is observed (oracle), not provable in Coq'],
     },
+    'C16': {
+        'steps': [{'script': 'corr_serial.py', 'timeout': 1500, 'timeout_thorough': 6000}],
+        'required_theorems': ['C16_regions_aligned_in_bounds_disjoint',
+                              'C16_regions_select_the_embedded_bytes', 'C16_model_pins'],
+        'rule': ('generated models (35% tiny FC chains of widths 1..3 with optional bias and an optional EMPTY '
+                 'constant: buffers of 0, 1, 2, 3, 4, 6... bytes; else the common graph generator) x shipped or random '
+                 'recipes; the same quantization through the ordinary path and, via the hook '
+                 'AI_EDGE_QUANTIZER_VERIF_LARGE_MODEL_THRESHOLD=-1, through the large-model path; offset/size table '
+                 'read with the raw flatbuffer accessors; non-trivial = at least one external region; distinct = '
+                 'distinct offset table'),
+        'trusted_base': COMMON_TB + [
+            'the flatbuffer encoder enters the model only as two byte strings of equal padded length (runtime assumption, checked on every case: the first region starts where the padded final flatbuffer ends)',
+            'hook in /repo (guarded by AI_EDGE_QUANTIZER_VERIF): threshold read from the environment'],
+        'assumptions': [
+            'Model/Serial.v is hand-written against _serialize_large_model / _process_constant_map; their body shapes, the alignment constant 16 and the threshold 2^31-2^20 are regenerated and pinned',
+            'interpreter behaviour (both serialisations load and compute identical outputs) is runtime: executed on every case'],
+    },
 }
